@@ -69,9 +69,26 @@ def gen_history(rng, length):
     y0, m0, d0 = rand_date(rng)
     ops.append(["mc_today", f"{y0}-{m0}-{d0}"])
     dates = [rand_date(rng) for _ in range(3)] + [(y0, m0, d0)]
+    if rng.random() < .35:
+        # opening: the very first update is rejected because of one of its
+        # rate specs; the converter must still be unbound, so an update with
+        # another kind of validity is accepted afterwards
+        y, m, d = rng.choice(dates)
+        other = rng.choice([k for k in ("none", "year", "month", "day") if k != kind])
+        good = f"{rng.choice([t for t in TERMS if t != base])},dec:{rat(Fraction(rng.randint(1, 999), 100))},int:1"
+        badspec = rng.choice([f"{rng.choice([t for t in TERMS if t != base])},int:0,int:1",
+                              f"{base},dec:3/2,int:1",
+                              f"{rng.choice([t for t in TERMS if t != base])},dec:3/2,frac:5/2"])
+        ops.append(["mc_update", "c", spell(rng, other, y, m, d), good + ";" + badspec, rng.choice(MODES)])
+        ops.append(["mc_dump", "c"])
+    lookups = []
     for _ in range(length):
         r = rng.random()
         mode = rng.choice(MODES)
+        if lookups and rng.random() < .25:
+            # ask again what was asked before (updates may have come in between)
+            ops.append(list(rng.choice(lookups)))
+            continue
         if r < .45:
             # update
             k = kind if rng.random() < .85 else rng.choice(["none", "year", "month", "day"])
@@ -90,7 +107,11 @@ def gen_history(rng, length):
             u, t = rng.choice(ALL), rng.choice(ALL)
             dt = rng.choice(dates)
             ds = "-" if rng.random() < .2 else f"{dt[0]}-{dt[1]}-{dt[2]}"
+            if rng.random() < .4:
+                # prefer cross rates (neither currency is the base)
+                u, t = rng.sample([c for c in ALL if c != base], 2)
             ops.append(["mc_rate", "c", u, t, ds, mode])
+            lookups.append(ops[-1])
         else:
             u, t = rng.sample(ALL, 2)
             dt = rng.choice(dates)
